@@ -8,9 +8,11 @@
 -/
 import Nq.Lemmas.C17Smtp
 import Nq.Lemmas.C17Envelope
+import Nq.Lemmas.C17Unparse
+import Nq.Lemmas.C17Group
 
 namespace Nq.Props.C17
-open Nq Nq.Quote Nq.Token822 Nq.SmtpAddr Nq.Inject Nq.Spec.Addr Nq.Lemmas.C17
+open Nq Nq.Quote Nq.Token822 Nq.SmtpAddr Nq.Inject Nq.Spec.Addr Nq.Spec.Lex822 Nq.Lemmas.C17
 
 /-- **The quoter's table is inside the parser's.**  Every byte that `quote_need` leaves unquoted (the
 `ok[]` table of quote.c, regenerated from the source), other than '.', is for token822.c an ordinary
@@ -137,19 +139,32 @@ theorem C17_smtp_commandline (box host rest : Bytes) (hb : LF ∉ box) (hh : smt
 Full statement (design): for every address-list AST `L` (mailboxes, `Name <route-addr>`, groups, comments,
 quoted strings, domain literals, missing commas) and every legal rendering (white space, comments,
 folding), `recipients (addrlist (parse (render L ws))) = (mailboxes L).reverse.map rwgeneric`, and
-`parse (unparse rewritten)` yields the same addresses.  Proved below: the restricted grammar of
-comma-separated plain mailboxes at token level (`C17_envelope_partial`), what `rwgeneric` does to
-`local@host` (`C17_rewrite_*`), the same with comments between tokens and `phrase <…>` items incl. routes
-(`C17_envelope_items`), Bcc removal (`C17_bcc`), the recipient strategies (`C17_modes`).  Missing:
-the lexer side of comments, groups, missing commas, idempotence of unparse→parse; those are covered by the generator-based differential
-of the real qmail-inject and by the re-parse oracles (see notes/C17.md).  NOTE (deviation from the design
-text): the callback order, hence the envelope order, is right-to-left within a field. -/
+`parse (unparse rewritten)` yields the same addresses.
+
+Proved: `C17_envelope` — the first half at full strength, from BYTES to callbacks: for every element list
+accepted by the grammar automaton `validEls` (mailboxes `addr-spec` / `phrase <anything but "<">`, commas
+present / repeated / missing where the text stays unambiguous, groups `phrase : … ;`) and every legal
+rendering of it (`C17_parse_render`: any white space and folds, nested comments anywhere after the colon,
+quoted-pairs anywhere in quoted strings / literals / comments), `token822_parse` succeeds and
+`token822_addrlist` succeeds and invokes the callback exactly on the listed mailboxes, right to left.
+Its parts: `C17_parse_render` (lexer), `C17_comments_ignored` (comment tokens never influence the parser),
+`C17_envelope_groups` (token level).  `C17_envelope_field` carries it into `doheaderfield`: the strings
+appended to `hrlist`/`hrrlist` are the unquoted `rwgeneric`-rewritten listed mailboxes (then `C17_modes`
+says which list is the envelope, `C17_rewrite_*` what `rwgeneric` does).  Second half: `C17_unparse_parse`
+— for EVERY line length (so whatever the folding macro does) `parse (unparse n ts) = ts` on clean token
+lists, hence the rewritten field (`C17_envelope_field`, third conjunct) is read back as the same TOKENS.
+NOT proved (oracle `Ireparse` of the differential harness only): that a second `token822_addrlist` pass over
+those rewritten tokens yields the same ADDRESSES (needs the shape of `rwgeneric`'s output for arbitrary
+addresses), and the link from the token-level `rwgeneric` to the string-level `Spec.Addr.rewriteMailbox`.
+Earlier special cases kept: `C17_envelope_plain` (was `C17_envelope_partial`), `C17_envelope_items`.
+NOTE (deviation from the design text): the callback order, hence the envelope order, is right-to-left
+within a field. -/
 
 /-- **Envelope, restricted grammar.**  A field `name: m₁, m₂, …, mₙ` whose mailboxes are plain
 (non-empty; words and `@`/`.` only; no two words adjacent — `sepOk`): `token822_addrlist` succeeds and
 calls the callback exactly once per mailbox, with the whole mailbox, from the last to the first.  (`rs`
 lists the mailboxes right to left, each reversed, exactly as the C callback receives them.) -/
-theorem C17_envelope_partial (cb : List Tok → List Tok) (name colon : Tok) (rs : List (List Tok))
+theorem C17_envelope_plain (cb : List Tok → List Tok) (name colon : Tok) (rs : List (List Tok))
     (h : ∀ m ∈ rs, m ≠ [] ∧ sepOk true m = true) :
     let r := addrlist cb (name :: colon :: (bodyRev rs).reverse)
     r.ok = true ∧ r.got = rs.map cb := by
@@ -163,7 +178,7 @@ theorem C17_envelope_recipients (c : RwCfg) (name colon : Tok) (rs : List (List 
     (h : ∀ m ∈ rs, m ≠ [] ∧ sepOk true m = true) :
     (addrlist (rwgeneric c) (name :: colon :: (bodyRev rs).reverse)).got.map addrString
       = rs.map (fun m => unquote (rwgeneric c m).reverse) := by
-  have := (C17_envelope_partial (rwgeneric c) name colon rs h).2
+  have := (C17_envelope_plain (rwgeneric c) name colon rs h).2
   rw [this]
   simp [addrString]
 
@@ -180,6 +195,118 @@ theorem C17_envelope_items (cb : List Tok → List Tok) (name colon : Tok) (its 
   have := fold_items cb its {} ⟨rfl, rfl, rfl⟩ rfl rfl h
   simp only [addrlist, List.drop_succ_cons, List.drop_zero, List.reverse_reverse]
   simpa using this
+
+/-- **The tokenizer on ANY legal rendering** (lexical level of RFC 822 §3, as a generator independent of
+the parser — `Nq.Spec.Lex822`): tokens written as specials, atoms of atom bytes, quoted strings and domain
+literals with any mixture of plain bytes and quoted-pairs, comments with quoted-pairs and balanced nested
+parentheses; between, before and after them any runs of SP TAB CR LF (so also folds), provided two atoms
+are not adjacent.  `token822_parse` succeeds and returns exactly the tokens (a comment becomes ONE comment
+token, wherever it stands; the inner parentheses of nested comments are dropped, as in C). -/
+theorem C17_parse_render (cts : List (Bytes × CTok)) (tr : Bytes)
+    (hok : cts.all (fun p => p.2.ok) = true) (hsep : sepsOk false cts = true) (htr : tr.all isWs = true) :
+    parse (render cts tr) = some (cts.map (fun p => p.2.tok)) := by
+  have := prun_render cts tr htr .top (Or.inl rfl) hok (by simpa using hsep)
+  simpa [parse, flushSt] using this
+
+/-- **Comments are white space for `token822_addrlist`** (the code as repaired by a66f18c), for EVERY token
+list: the return value and the sequence of callback invocations (addresses handed over, in order) are
+those of the same field with all comment tokens removed.  With `C17_parse_render` (a comment in the text
+becomes one comment token and changes no other token) this is insensitivity to inter-token comments. -/
+theorem C17_comments_ignored (cb : List Tok → List Tok) (name colon : Tok) (body : List Tok) :
+    (addrlist cb (name :: colon :: body)).ok = (addrlist cb (name :: colon :: body.filter notComment)).ok ∧
+    (addrlist cb (name :: colon :: body)).got = (addrlist cb (name :: colon :: body.filter notComment)).got :=
+  addrlist_comments cb name colon body
+
+/-- **`token822_parse ∘ token822_unparse = id`, folding included**: for every line length `n` (0 = never
+fold, `LINELEN` = 80 in qmail-inject, or anything else — whatever the `NSUW` macro decides about its
+tentative folds) and every token list whose atoms are legal atoms (quoted strings, literals and comments
+may hold ANY bytes), what `token822_unparse` writes is read back as the same token list. -/
+theorem C17_unparse_parse (n : Nat) (ts : List Tok) (hc : ts.all cleanTok = true) :
+    parse (unparse n ts) = some ts :=
+  parse_unparse n ts hc
+
+/-- Complement: an atom that is not a legal atom does not survive (`a\ b@c`: the quoted-pair inside an
+atom yields the atom `a b`, written back as two atoms) — the hypothesis cannot be dropped. -/
+example : parse (unparse 80 [.atom [97, 32, 98]]) = some [.atom [97], .atom [98]] := by decide
+
+/-- **Envelope, token level, full grammar** (groups, repeated and missing commas).  `els` lists the field's
+elements right to left: mailboxes (`addr-spec` with comments anywhere, or `phrase <…>` with anything but `<`
+inside), commas, `;`, `: display-name`.  If the grammar automaton `validEls` accepts it — a comma may be
+MISSING to the right of a mailbox that ends in a word or `>` when its right neighbour is an addr-spec
+beginning with a word (`To: djb fred`, `<a@b> c@d`), commas may be repeated, a group opens with `;`, closes
+with `: name` and must be followed by a comma or the beginning of the field, groups do not nest — then
+`token822_addrlist` succeeds and invokes the callback exactly once per mailbox, with the mailbox's address
+(comments removed), last to first. -/
+theorem C17_envelope_groups (cb : List Tok → List Tok) (name colon : Tok) (els : List El)
+    (hv : validEls false .fresh els = true) (hel : ∀ el ∈ els, el.ok) :
+    let r := addrlist cb (name :: colon :: (els.flatMap El.toks).reverse)
+    r.ok = true ∧ r.got = (mboxes els).map cb := by
+  have := fold_els cb els {} false .fresh ⟨rfl, rfl, rfl, rfl, rfl⟩ hv hel
+  simp only [addrlist, List.drop_succ_cons, List.drop_zero, List.reverse_reverse]
+  simpa [owed] using this
+
+/-- Complement (why a real comma is needed before `phrase <…>`): in `a@b Joe <c@d>` the tokens of `a@b` are
+read as part of the display name; the callback sees `c@d` only.  `validEls` rejects this element list. -/
+example : (addrlist id [.atom [84], .colon, .atom [97], .at, .atom [98], .atom [74], .left, .atom [99], .at, .atom [100], .right]).got
+    = [[.atom [100], .at, .atom [99]]] := by decide
+example : validEls false .fresh [.mbox (.angle [.atom [100], .at, .atom [99]] [.atom [74]]), .mbox (.plain [.atom [98], .at, .atom [97]])]
+    = false := by decide
+
+/-- **The envelope, from bytes to callbacks** (first half of the design statement, full strength).  For
+every element list `els` accepted by the grammar (`C17_envelope_groups`) and EVERY legal rendering of the
+field — concrete tokens `cts` (any quoting, `C17_parse_render`) with any white space / folding between
+them, whose tokens are the field name, the colon, and a body that is `els` (left to right) with comment
+tokens inserted or removed ANYWHERE — `token822_parse` accepts the text, `token822_addrlist` accepts the
+tokens, and the callback is invoked exactly on the listed mailboxes, right to left. -/
+theorem C17_envelope (cb : List Tok → List Tok) (els : List El) (cts : List (Bytes × CTok)) (tr : Bytes)
+    (name colon : Tok) (body : List Tok)
+    (hv : validEls false .fresh els = true) (hel : ∀ el ∈ els, el.ok)
+    (hok : cts.all (fun p => p.2.ok) = true) (hsep : sepsOk false cts = true) (htr : tr.all isWs = true)
+    (htoks : cts.map (fun p => p.2.tok) = name :: colon :: body)
+    (hskel : body.filter notComment = ((els.flatMap El.toks).reverse).filter notComment) :
+    ∃ ts, parse (render cts tr) = some ts ∧ (addrlist cb ts).ok = true ∧ (addrlist cb ts).got = (mboxes els).map cb := by
+  refine ⟨name :: colon :: body, ?_, ?_, ?_⟩
+  · rw [C17_parse_render cts tr hok hsep htr, htoks]
+  · rw [(C17_comments_ignored cb name colon body).1, hskel,
+      ← (C17_comments_ignored cb name colon (els.flatMap El.toks).reverse).1]
+    exact (C17_envelope_groups cb name colon els hv hel).1
+  · rw [(C17_comments_ignored cb name colon body).2, hskel,
+      ← (C17_comments_ignored cb name colon (els.flatMap El.toks).reverse).2]
+    exact (C17_envelope_groups cb name colon els hv hel).2
+
+/-- **…and into qmail-inject's lists.**  A header field `h` that `token822_parse` accepts and on which
+`token822_addrlist` succeeds with qmail-inject's callback — by `C17_envelope` every legal rendering of a
+grammatical list, with `got = (mboxes els).map (rwgeneric c)` —: if it is a To, Cc, Bcc or Apparently-To
+field the strings appended to `hrlist` are exactly the unquoted rewritten mailboxes (for Resent-To/Cc/Bcc:
+to `hrrlist`), qmail-inject does not die on it, and the text kept for the header, `unparse LINELEN out`,
+is read back by `token822_parse` as the same tokens `out` when these are clean. -/
+theorem C17_envelope_field (e : Env) (c : RwCfg) (st : ISt) (h : Bytes) (ts : List Tok) (hd : st.dead = none)
+    (hp : parse h = some ts) (hok : (addrlist (rwgeneric c) ts).ok = true) :
+    ((hfieldKnown h = Gen.H_TO ∨ hfieldKnown h = Gen.H_CC ∨ hfieldKnown h = Gen.H_BCC ∨ hfieldKnown h = Gen.H_APPARENTLYTO) →
+      (doheaderfield e c st h).hrlist = st.hrlist ++ (addrlist (rwgeneric c) ts).got.map addrString ∧
+      (doheaderfield e c st h).hrrlist = st.hrrlist ∧ (doheaderfield e c st h).dead = none) ∧
+    ((hfieldKnown h = Gen.H_R_TO ∨ hfieldKnown h = Gen.H_R_CC ∨ hfieldKnown h = Gen.H_R_BCC) →
+      (doheaderfield e c st h).hrrlist = st.hrrlist ++ (addrlist (rwgeneric c) ts).got.map addrString ∧
+      (doheaderfield e c st h).hrlist = st.hrlist ∧ (doheaderfield e c st h).dead = none) ∧
+    ((rewriteField c true h).1 = unparse Gen.LINELEN (addrlist (rwgeneric c) ts).out ∧
+      ((addrlist (rwgeneric c) ts).out.all cleanTok = true →
+        parse (rewriteField c true h).1 = some (addrlist (rwgeneric c) ts).out)) := by
+  have hr : ∀ mf, rewriteField c mf h
+      = (unparse Gen.LINELEN (addrlist (rwgeneric c) ts).out, (addrlist (rwgeneric c) ts).got, false) := by
+    intro mf; simp [rewriteField, hp, hok]
+  refine ⟨?_, ?_, ?_, ?_⟩
+  · intro hk
+    rcases hk with hk | hk | hk | hk <;>
+      simp [doheaderfield, hd, hk, hr, Gen.H_BCC, Gen.H_FROM, Gen.H_MESSAGEID, Gen.H_RETURNPATH, fieldClass, fieldDropped,
+        Gen.H_TO, Gen.H_CC, Gen.H_APPARENTLYTO, Gen.H_R_BCC, Gen.H_CONTENTLENGTH]
+  · intro hk
+    rcases hk with hk | hk | hk <;>
+      simp [doheaderfield, hd, hk, hr, Gen.H_BCC, Gen.H_FROM, Gen.H_MESSAGEID, Gen.H_RETURNPATH, fieldClass, fieldDropped,
+        Gen.H_TO, Gen.H_CC, Gen.H_APPARENTLYTO, Gen.H_R_BCC, Gen.H_R_TO, Gen.H_R_CC, Gen.H_CONTENTLENGTH]
+  · rw [hr]
+  · intro hc
+    rw [hr]
+    exact C17_unparse_parse Gen.LINELEN _ hc
 
 /-- **Rewriting, fully qualified host**: `local@host` whose host (rightmost token an atom not ending in
 `+`) has a dot is left alone. -/
@@ -366,5 +493,46 @@ example : (Item.angle [.atom [104], .at, .atom [117], .colon, .atom [114], .at, 
 example : rwgeneric { defaulthost := [.at, .atom [104]], defaultdomain := [.dot, .atom [100]], plusdomain := [.dot, .atom [112]] }
       [.atom [104], .at, .atom [117], .colon, .atom [114], .at]
     = [.atom [100], .dot, .atom [104], .at, .atom [117]] := by decide
+
+/-! non-vacuity of the extended envelope theorems -/
+
+/-- a legal rendering: `To:` SP `(c(n)\))` LF SP `"q\""<a@` TAB `[1]>` LF — nested comment with a quoted-pair,
+fold, quoted-pair in a quoted string, literal -/
+def exCts : List (Bytes × CTok) :=
+  [([], .atom [84, 111]), ([], .special 58), ([32], .comment [.ch 99 false, .op, .ch 110 false, .cl, .ch 41 true]),
+   ([10, 32], .quote [(113, false), (34, true)]), ([], .special 60), ([], .atom [97]), ([], .special 64),
+   ([9], .literal [(49, false)]), ([], .special 62)]
+example : exCts.all (fun p => p.2.ok) = true ∧ sepsOk false exCts = true := by decide
+example : render exCts [10]
+    = [84, 111, 58, 32, 40, 99, 40, 110, 41, 92, 41, 41, 10, 32, 34, 113, 92, 34, 34, 60, 97, 64, 9, 91, 49, 93, 62, 10] := by decide
+example : parse (render exCts [10])
+    = some [.atom [84, 111], .colon, .comment [99, 110, 41], .quote [113, 34], .left, .atom [97], .at, .literal [49], .right] := by decide
+
+/-- `To: g: a@b c;, J <@r:u@h> d` right to left: `d`, missing comma, `J <@r:u@h>`, comma, `;`, `c`, missing
+comma, `a@b`, `: g` -/
+def exEls : List El :=
+  [.mbox (.plain [.atom [100]]), .mbox (.angle [.atom [104], .at, .atom [117], .colon, .atom [114], .at] [.atom [74]]),
+   .comma, .gclose, .mbox (.plain [.atom [99]]), .mbox (.plain [.atom [98], .at, .atom [97]]), .gopen [.atom [103]]]
+example : validEls false .fresh exEls = true := by decide
+example : ∀ el ∈ exEls, el.ok := by
+  intro el h
+  simp only [exEls, List.mem_cons, List.not_mem_nil, or_false] at h
+  rcases h with rfl | rfl | rfl | rfl | rfl | rfl | rfl <;>
+    simp [El.ok, Item.ok, sepOkC, notComment, isWordTok, isSepTok, isPhraseTok]
+example : (exEls.flatMap El.toks).reverse
+    = [.atom [103], .colon, .atom [97], .at, .atom [98], .atom [99], .semi, .comma, .atom [74], .left,
+       .at, .atom [114], .colon, .atom [117], .at, .atom [104], .right, .atom [100]] := by decide
+example : mboxes exEls = [[.atom [100]], [.atom [104], .at, .atom [117], .colon, .atom [114], .at], [.atom [99]],
+    [.atom [98], .at, .atom [97]]] := by decide
+/-- the same field with comments sprinkled in (between the words of an address, inside `<…>`, in the group
+name): same callbacks -/
+example : (addrlist id [.atom [84, 111], .colon, .atom [103], .comment [120], .colon, .atom [97], .comment [121], .at, .atom [98], .atom [99], .semi,
+      .comma, .atom [74], .left, .at, .atom [114], .colon, .comment [122], .atom [117], .at, .atom [104], .right, .atom [100]]).got
+    = [[.atom [100]], [.atom [104], .at, .atom [117], .colon, .atom [114], .at], [.atom [99]], [.atom [98], .at, .atom [97]]] := by decide
+/-- folding at a short line length: `a,b,c` with line length 3 is written `a,` LF SP SP `b,` LF SP SP `c` LF …
+and parses back -/
+example : unparse 3 [.atom [97], .comma, .atom [98], .comma, .atom [99]] = [97, 44, 10, 32, 32, 98, 44, 10, 32, 32, 99, 10] := by decide
+example : unparse 80 [.atom [97], .comma, .atom [98], .comma, .atom [99]] = [97, 44, 32, 98, 44, 32, 99, 10] := by decide
+example : parse [97, 44, 10, 32, 32, 98, 44, 10, 32, 32, 99, 10] = some [.atom [97], .comma, .atom [98], .comma, .atom [99]] := by decide
 
 end Nq.Props.C17
